@@ -272,6 +272,14 @@ func c13Spaces(tier string) []*explore.Space {
 	}
 	rel = append(rel, p1...)
 	idPaths := append(append([]*gen.Path{}, s1...), p1...)
+	for _, pre := range [][]gen.Step{nil, {gen.DSlash()}, {gen.Ch("*")}, {gen.Dot(), gen.DSlash()}, {gen.St("descendant", "*")}, {gen.St("following", "node()")}} {
+		for _, h := range []gen.Step{gen.Ch("a"), gen.Ch("*"), gen.Ch("node()")} {
+			for _, p := range []gen.Expr{gen.N(1), gen.N(2), gen.F("last"), gen.B("<", gen.F("position"), gen.N(2))} {
+				abs := len(pre) > 0 && pre[0].Abbr == "//"
+				idPaths = append(idPaths, &gen.Path{Abs: abs, Steps: append(append([]gen.Step{}, pre...), withPred(h, p))})
+			}
+		}
+	}
 	if tier == "thorough" {
 		for i := 0; i < len(s2); i += 8 {
 			idPaths = append(idPaths, s2[i])
